@@ -41,6 +41,8 @@ pub enum RuntimeErrorKind {
     InvalidIndex,
     /// A hoisted function ran before the `make` of a variable it captures
     UninitializedVariable,
+    /// An array would nest arrays deeper than [`MAX_ARRAY_DEPTH`]
+    ArrayTooDeep,
     ProcessUnsupported,
     ProcessDenied,
     ProcessSpawnFailed(&'static str),
@@ -60,6 +62,7 @@ impl AsStr for RuntimeErrorKind {
             RuntimeErrorKind::TypeMismatch => "Type mismatch",
             RuntimeErrorKind::InvalidIndex => "Invalid index",
             RuntimeErrorKind::UninitializedVariable => "Variable used before its declaration",
+            RuntimeErrorKind::ArrayTooDeep => "Array nesting too deep",
             RuntimeErrorKind::ProcessUnsupported => "Unsupported process execution",
             RuntimeErrorKind::ProcessDenied => "Process execution denied",
             RuntimeErrorKind::ProcessSpawnFailed(..) => "Process spawn failed",
@@ -103,6 +106,14 @@ impl RuntimeError {
         Self { kind, span, name: name.into(), ty }
     }
 }
+
+/// Deepest nesting of arrays inside arrays a value may reach.
+///
+/// Copying, promoting, comparing, printing, joining and dropping a value all
+/// recurse over it without a stack probe, so data built one level per loop
+/// iteration (`a get [a]`) must not get arbitrarily deep. Checked wherever an
+/// array can gain a level: array literals, `push` and indexed stores.
+const MAX_ARRAY_DEPTH: usize = 512;
 
 /// Maximum native stack bytes the runtime is allowed to consume.
 /// Adapts automatically to debug vs release frame sizes and platform
@@ -156,6 +167,15 @@ impl<'a> Value<'a> {
                 }
                 Value::Array(new)
             }
+        }
+    }
+
+    /// How many arrays are nested inside each other in this value (0 for a scalar).
+    /// Recursion is bounded because no value deeper than [`MAX_ARRAY_DEPTH`] is ever built.
+    fn array_depth(&self) -> usize {
+        match self {
+            Value::Array(items) => 1 + items.iter().map(Value::array_depth).max().unwrap_or(0),
+            _ => 0,
         }
     }
 
@@ -343,6 +363,25 @@ impl<'a> Runtime<'a> {
         !std::ptr::eq(self.frame, self.arena)
     }
 
+    /// Refuses to put `value` `levels` arrays deep if that exceeds [`MAX_ARRAY_DEPTH`].
+    fn check_array_depth(levels: usize, value: &Value<'a>, span: Span) -> Result<(), RuntimeError> {
+        if matches!(value, Value::Array(..)) && levels + value.array_depth() > MAX_ARRAY_DEPTH {
+            return Err(RuntimeError::new(RuntimeErrorKind::ArrayTooDeep, span));
+        }
+        Ok(())
+    }
+
+    /// Number of index steps in `a[i][j]...`: how deep inside its variable the array sits.
+    fn index_depth(expr: ExprRef<'a>) -> usize {
+        let mut depth = 0;
+        let mut expr = expr;
+        while let Expr::Index { array, .. } = expr {
+            depth += 1;
+            expr = array;
+        }
+        depth
+    }
+
     /// Checks whether the native stack has grown beyond `STACK_BUDGET`
     /// since `run()` was entered. Covers both function-call recursion and
     /// deeply nested expression evaluation in a single check.
@@ -410,6 +449,10 @@ impl<'a> Runtime<'a> {
                     RuntimeErrorKind::UninitializedVariable => vec![Label {
                         span: err.span,
                         message: ArenaCow::Borrowed("Dis variable `make` never run yet"),
+                    }],
+                    RuntimeErrorKind::ArrayTooDeep => vec![Label {
+                        span: err.span,
+                        message: ArenaCow::Borrowed("Array inside array don too many"),
                     }],
                     RuntimeErrorKind::ProcessUnsupported => vec![Label {
                         span: err.span,
@@ -796,10 +839,11 @@ impl<'a> Runtime<'a> {
                     _ => Err(RuntimeError::new(RuntimeErrorKind::TypeMismatch, *span)),
                 }
             }
-            Expr::Array { elements, .. } => {
+            Expr::Array { elements, span } => {
                 let mut values = Vec::with_capacity_in(elements.len(), self.frame);
                 for element in *elements {
                     let val = self.eval_expr(element)?;
+                    Self::check_array_depth(1, &val, *span)?;
                     values.push(val);
                 }
                 Ok(Value::Array(values))
@@ -1097,6 +1141,7 @@ impl<'a> Runtime<'a> {
         match builtin {
             ArrayBuiltin::Push => {
                 let value = self.eval_expr(args.args[0])?;
+                Self::check_array_depth(Self::index_depth(receiver) + 1, &value, span)?;
                 // Promote before pushing, the target array lives on persistent,
                 // but the value may reference frame-arena memory.
                 let value = if self.has_frame_arena() {
@@ -1819,6 +1864,8 @@ impl<'a> Runtime<'a> {
             let idx = self.eval_index_value(index_expr, *index_span)?;
             evaluated_indices.push((idx, *index_span));
         }
+
+        Self::check_array_depth(evaluated_indices.len(), &value, span)?;
 
         // Promote before taking the mutable borrow on the variable.
         let value =
